@@ -12,7 +12,7 @@ import (
 )
 
 func init() {
-	props["C01"] = &prop{gen: genC01, run: runC01}
+	props["C01"] = &prop{gen: genC01, run: runC01, concurrent: 8}
 }
 
 const realChunkLimit = 16 * 1024 * 1024
